@@ -7,6 +7,7 @@ import (
 	"github.com/glyphlang/glyph/internal/zzverif"
 	"github.com/glyphlang/glyph/pkg/ast"
 	"github.com/glyphlang/glyph/pkg/interpreter"
+	"github.com/glyphlang/glyph/pkg/parser"
 )
 
 // zzProbe has exported methods on and off the allow-list. Off-list methods
@@ -24,8 +25,14 @@ func (p *zzProbe) Sxt(k string, v interface{}) error  { zzverif.Fail("off-list-m
 func (p *zzProbe) Exec(q string) error                { zzverif.Fail("off-list-method-invoked Exec"); return nil }
 
 // methods whose standing is read from the allow-list at the moment they run
+var zzUseSnapshot bool
+
 func zzInvoked(name string) {
-	if !interpreter.ZZAllowedExact(name) {
+	allowed := interpreter.ZZAllowedExact(name)
+	if zzUseSnapshot {
+		allowed = interpreter.ZZAllowedAtStart(name)
+	}
+	if !allowed {
 		zzverif.Fail("off-list-method-invoked " + name)
 	}
 }
@@ -39,6 +46,11 @@ func (p *zzProbe) Ping() string                        { zzInvoked("Ping"); p.ca
 // a variadic method with fixed leading parameters (the shape of redis LPush)
 func (p *zzProbe) LPush(key string, vals ...interface{}) int64 { p.calls++; return int64(len(vals)) }
 func (p *zzProbe) HSet(key, field string, more ...interface{}) int64 { p.calls++; return 1 }
+
+// methods with typed slice / map parameters (the shape of InsertMany, Aggregate)
+func (p *zzProbe) InsertMany(docs []map[string]interface{}) int64 { p.calls++; return int64(len(docs)) }
+func (p *zzProbe) Aggregate(stages []interface{}) []interface{}   { p.calls++; return nil }
+func (p *zzProbe) Purge(scope string) bool                         { zzInvoked("Purge"); return true }
 
 // bytes that spell the probe's method names in any case, plus the UTF-8 bytes
 // of U+212A (Kelvin sign, which case-folds to k) and U+017F (long s -> s)
@@ -126,7 +138,7 @@ func VerifC12_NamedOffList() {
 
 // O2: no argument count, null or wrongly typed argument crashes a provider call.
 func VerifC12_Arguments() {
-	methods := []string{"Get", "Set", "All", "Del", "Table", "LPush", "HSet", "lpush", "hset"}
+	methods := []string{"Get", "Set", "All", "Del", "Table", "LPush", "HSet", "lpush", "hset", "InsertMany", "Aggregate"}
 	m := methods[zzverif.Choice("method", len(methods))]
 	n := zzverif.Choice("nargs", 4)
 	var args []interface{}
@@ -142,7 +154,16 @@ func VerifC12_Arguments() {
 		case 3:
 			args, shape = append(args, zzverif.StringFrom("str", 1, "ab")), shape+" str"
 		case 4:
-			args, shape = append(args, []interface{}{int64(1)}), shape+" arr"
+			switch zzverif.Choice("arr", 4) {
+			case 0:
+				args, shape = append(args, []interface{}{int64(1)}), shape+" arr"
+			case 1:
+				args, shape = append(args, []interface{}{nil}), shape+" arr-of-null"
+			case 2:
+				args, shape = append(args, []interface{}{map[string]interface{}{"k": int64(1)}, nil}), shape+" arr-obj-null"
+			default:
+				args, shape = append(args, []interface{}{map[string]interface{}{"k": int64(1)}}), shape+" arr-of-obj"
+			}
 		default:
 			args, shape = append(args, map[string]interface{}{"k": int64(1)}), shape+" obj"
 		}
@@ -156,6 +177,45 @@ func VerifC12_Arguments() {
 		interpreter.CallMethod(&zzProbe{}, m, args...)
 	}()
 	zzverif.Reach("arguments")
+}
+
+// A program's own provider contract must not widen what programs may call on
+// other providers: the allow-list as it was before the program was loaded is
+// the reference.
+func VerifC12_ContractDoesNotWidenAllowList() {
+	interpreter.ZZSnapshotAllowList()
+	zzUseSnapshot = true
+	defer func() { zzUseSnapshot = false }()
+	src := "provider Audit {\n  purge(scope: str!) -> bool\n  close() -> bool\n  zap(scope: str!) -> bool\n}\n\n@ GET /t {\n  > 1\n}\n"
+	toks, err := parser.NewLexer(src).Tokenize()
+	if err != nil {
+		panic("harness program does not lex")
+	}
+	m, err := parser.NewParser(toks).Parse()
+	if err != nil {
+		panic("harness program does not parse: " + err.Error())
+	}
+	in := interpreter.NewInterpreter()
+	if err := in.LoadModule(*m); err != nil {
+		panic("harness program does not load: " + err.Error())
+	}
+	p := &zzProbe{}
+	env := interpreter.NewEnvironment()
+	env.Define("p", p)
+	name := []string{"purge", "Purge", "close", "Close", "zap", "ZAP"}[zzverif.Choice("name", 6)]
+	arg := ast.LiteralExpr{Value: ast.StringLiteral{Value: "x"}}
+	switch zzverif.Choice("form", 4) {
+	case 0:
+		in.EvaluateExpression(ast.FunctionCallExpr{Name: "p." + name, Args: []ast.Expr{arg}}, env)
+	case 1:
+		in.EvaluateExpression(ast.FunctionCallExpr{Name: "p." + name}, env)
+	case 2:
+		in.EvaluateExpression(ast.FunctionCallExpr{Name: name, Args: []ast.Expr{ast.VariableExpr{Name: "p"}, arg}}, env)
+	default:
+		interpreter.CallMethod(p, name)
+		interpreter.CallMethod(p, name, "x")
+	}
+	zzverif.Reach("contract")
 }
 
 func VerifC12_Twin() {
